@@ -5,6 +5,7 @@ package core
 var verifHarnesses = map[string]func(){
 	"VerifC18Exec": VerifC18Exec,
 	"VerifC18Step": VerifC18Step,
+	"VerifCoreOrderLemmas": VerifCoreOrderLemmas,
 	"VerifC04Step": VerifC04Step,
 	"VerifC06Walk": VerifC06Walk,
 	"VerifC06Step": VerifC06Step,
